@@ -3,7 +3,8 @@
    row_cost / row_force are the cost and force components of the REGENERATED _eval_constraint
    (Gen/solver.v, from /repo/mujoco_warp/_src/solver.py) for a non-elliptic row, as functions of the
    row's jaref = J_r a - aref_r:   row_cost ie ifr D fl x = r_cost (ec ie ifr false x D fl 0 ...).
-   What is NOT proved here: that the Newton / CG iteration reaches the stationary point (checked a
+   Elliptic contacts couple the rows of one contact: they are handled as blocks (C06_elliptic_block_convex,
+   C06_kkt_certificate_system).  What is NOT proved here: that the Newton / CG iteration reaches the stationary point (checked a
    posteriori per input by the oracle: KKT residual and comparison with MuJoCo); float32. *)
 From Coq Require Import ZArith Reals List Bool.
 From VF Require Import Base.Scalar Base.ScalarR Base.Vec Gen.solver Model.SolverHand Proof.Solver.
@@ -65,13 +66,23 @@ Theorem C06_kkt_certificate :
 Proof. exact kkt_certificate. Qed.
 Print Assumptions C06_kkt_certificate.
 
+(* the same for a constraint cost S of the whole jaref vector (not a sum of per-row functions) with
+   force field F: first-order convexity  S y - sum_r F_r(y) (y'_r - y_r) <= S y'  suffices *)
+Theorem C06_kkt_certificate_general :
+  forall (n m : nat) (M J : nat -> nat -> R) (aref a0 : nat -> R)
+         (S : (nat -> R) -> R) (F : (nat -> R) -> nat -> R) (a : nat -> R),
+    (forall x y, dot n x (mv n M y) = dot n y (mv n M x)) ->
+    (forall x, 0 <= dot n x (mv n M x)) ->
+    (forall y y', S y - sumn m (fun r => F y r * (y' r - y r)) <= S y') ->
+    (forall i, (i < n)%nat ->
+       mv n M (vsubf a a0) i = JTf m J (F (fun r => dot n (J r) a - aref r)) i) ->
+    forall b, gaussS n m M J aref S a0 a <= gaussS n m M J aref S a0 b.
+Proof. exact kkt_certificate_general. Qed.
+Print Assumptions C06_kkt_certificate_general.
+
 (* ... instantiated with the translated _eval_constraint for systems made of equality, friction-loss,
-   limit and frictionless / pyramidal contact rows (row kinds given by the flags the kernel passes).
-   _partial: elliptic contacts couple the rows of one contact, so their cost is not a sum of
-   per-row functions; the block-convexity of the elliptic contact cost is not proved here (the
-   abstract theorem above applies to it once that is supplied).  Elliptic solves are covered by the
-   oracle (KKT residual, MuJoCo comparison) only. *)
-Theorem C06_kkt_certificate_rows_partial :
+   limit and frictionless / pyramidal contact rows (row kinds given by the flags the kernel passes) *)
+Theorem C06_kkt_certificate_rows :
   forall (n m : nat) (M J : nat -> nat -> R) (aref a0 : nat -> R)
          (ie ifr : nat -> bool) (D fl : nat -> R) (a : nat -> R),
     (forall x y, dot n x (mv n M y) = dot n y (mv n M x)) ->
@@ -84,7 +95,39 @@ Theorem C06_kkt_certificate_rows_partial :
       gauss n m M J aref (fun r => row_cost (ie r) (ifr r) (D r) (fl r)) a0 a
       <= gauss n m M J aref (fun r => row_cost (ie r) (ifr r) (D r) (fl r)) a0 b.
 Proof. exact kkt_certificate_rows. Qed.
-Print Assumptions C06_kkt_certificate_rows_partial.
+Print Assumptions C06_kkt_certificate_rows.
+
+(* the cost of one elliptic contact (all its rows, evaluated by the translated _eval_constraint with
+   the kernel's argument assembly of Model/SolverHand.v) is convex as a function of the contact's
+   jaref vector, its row forces being minus the gradient - across all three zones.  x = (j0, rows),
+   y = (j0', rows with the tangent jarefs replaced by jy); row masses as constraint.py builds them. *)
+Theorem C06_elliptic_block_convex :
+  forall adr0 D0 mu, 0 < D0 -> 0 < mu ->
+  forall j0 j0' rows jy,
+    rows_ok D0 mu rows -> length jy = length rows ->
+    let jt := map (fun r => fst (fst r)) rows in
+    let fr := map (fun r => snd (fst r)) rows in
+    block_cost adr0 j0 D0 mu rows
+      - r_force (@block_row_normal R ScalarR adr0 j0 D0 mu jt fr) * (j0' - j0)
+      - tang_lin adr0 j0 D0 mu jt fr 0 rows jy
+    <= block_cost adr0 j0' D0 mu (rows_with rows jy).
+Proof. exact elliptic_block_convex. Qed.
+Print Assumptions C06_elliptic_block_convex.
+
+(* KKT certificate for any system whose constraint rows are simple rows (TRow r ...) and elliptic
+   contacts (TBlock p D0 mu [(friction_k, D_k)...]: normal row p, tangent rows p+1, p+2, ...), all
+   evaluated by the translated _eval_constraint: sys_cost is the total constraint cost, sys_force the
+   per-row force; stationarity  M (a - a0) = J' force(a)  implies that a minimises the Gauss cost. *)
+Theorem C06_kkt_certificate_system :
+  forall (n m : nat) (M J : nat -> nat -> R) (aref a0 : nat -> R) (ts : list term) (a : nat -> R),
+    (forall x y, dot n x (mv n M y) = dot n y (mv n M x)) ->
+    (forall x, 0 <= dot n x (mv n M x)) ->
+    (forall t, In t ts -> term_ok m t) ->
+    (forall i, (i < n)%nat ->
+       mv n M (vsubf a a0) i = JTf m J (sys_force ts (fun r => dot n (J r) a - aref r)) i) ->
+    forall b, gaussS n m M J aref (sys_cost ts) a0 a <= gaussS n m M J aref (sys_cost ts) a0 b.
+Proof. exact kkt_certificate_system. Qed.
+Print Assumptions C06_kkt_certificate_system.
 
 (* elliptic contacts, branch by branch.  Top zone: cost 0, forces 0.  Bottom zone: every row is the
    quadratic formula (covered by C06_force_is_minus_cost_derivative with ie = true's formula, see
@@ -148,3 +191,9 @@ Example C06_kkt_hypotheses_satisfiable :
   (forall i, (i < 1)%nat ->
      mv 1 M (vsubf a a0) i = JTf 1 J (fun r => row_force false false 3 0 (dot 1 (J r) a - aref r)) i).
 Proof. exact kkt_example. Qed.
+
+(* ... and of the system theorem's well-formedness: a limit row and a condim-3 elliptic contact *)
+Example C06_system_hypotheses_satisfiable :
+  let ts := [TRow 0 false false 3 0; TBlock 1 2 (1/2) [(1/2, 2); (1/2, 2)]] in
+  forall t, In t ts -> term_ok 4 t.
+Proof. exact system_example. Qed.
